@@ -41,6 +41,15 @@ type refEngine struct {
 	batch []func(*refEngine)
 }
 
+// refUnbounded is the same store handing out cursors that IGNORE the bounds of the options (as the in-memory engine
+// does): the real wrapper on top of it must answer what it answers over the bounded cursor
+// (Lean: C20_iter_spec_unbounded_engine, the repaired fallback of the reverse start position)
+type refUnbounded struct{ r *refEngine }
+
+func (u refUnbounded) GetIterator(opts engine.IteratorOpts) (engine.Iterator, error) {
+	return &refIter{pos: -1, view: append([]refKV{}, u.r.kvs...)}, nil
+}
+
 func (r *refEngine) find(k []byte) (int, bool) {
 	lo, hi := 0, len(r.kvs)
 	for lo < hi {
@@ -524,6 +533,11 @@ func newEngine(c *Ctx) func(string) string {
 				return "[" + sb.String() + "]"
 			}
 			refAns := quiet(func() string { return runIter(ref, mx) })
+			if unb := quiet(func() string { return runIter(refUnbounded{ref}, mx) }); unb != refAns {
+				c.Violation("wrapper-unbounded-cursor:"+cls, fmt.Sprintf("%s: the wrapper over a cursor that ignores the bounds answers %.300s, over the bounded cursor %.300s", line, unb, refAns))
+			} else {
+				c.Note("wrapper-unbounded-cursor:agrees")
+			}
 			tagger = func(o string) string {
 				// reverse iteration whose first key lies above Max (the SeekToFirst fallback on an unbounded cursor)
 				if rev && mx != nil && len(o) > 2 {
